@@ -35,6 +35,9 @@ pub enum DataVerifierError {
     #[error("peer_id doens't match any available public key: {0:?}")]
     PeerIdNotFound(String),
 
+    #[error("a result CID {0:?} used in the trace is absent from the CID info")]
+    TraceCidNotFound(Rc<CidRef>),
+
     #[error("signature mismatch for {peer_id:?}: {error:?}, values: CIDS: {cids:?}")]
     SignatureMismatch {
         error: Box<VerificationError>,
